@@ -379,3 +379,100 @@ Definition normalise_record (r : record) : record :=
      rec_summary := rec_summary r;
      rec_entries := map normalise_entry (rec_entries r) |}.
 Definition normalise (rs : list record) : list record := map normalise_record rs.
+
+(* ---------- well-formed records (the guard of the print theorems, C09) ---------- *)
+
+Definition time_ok (t : time) : bool :=
+  (0 <=? t_hour t) && (t_hour t <=? 23) && (0 <=? t_min t) && (t_min t <=? 59) && (-1 <=? t_shift t) && (t_shift t <=? 1).
+
+(* the notation flags of a duration are those its own printed form shows *)
+Definition duration_flags_ok (d : duration) : bool :=
+  if d_mins d =? 0
+  then (-1 <=? d_zsign d) && (d_zsign d <=? 1) && Bool.eqb (d_plus d) (0 <? d_zsign d)
+  else (d_zsign d =? 0) && (if d_mins d <? 0 then negb (d_plus d) else true).
+
+Definition fits_int64 (m : Z) : bool := (-9223372036854775807 <=? m) && (m <=? 9223372036854775807).
+
+Definition value_ok (v : evalue) : bool :=
+  match v with
+  | VDuration d => fits_int64 (d_mins d) && duration_flags_ok d
+  | VRange r => time_ok (r_start r) && time_ok (r_end r) && (time_offset (r_start r) <=? time_offset (r_end r))
+  | VOpen o => time_ok (o_start o)
+  end.
+
+(* a summary line held in a record: well-formed UTF-8 without a linefeed *)
+Definition bytes_line_ok (s : bytes) : bool := bytes_eqb (utf8_encode (utf8_decode s)) s && text_ok (utf8_decode s).
+
+Definition entry_ok (e : entry) : bool :=
+  value_ok (e_value e)
+  && match e_summary e with
+     | [] => true
+     | f :: more => bytes_line_ok f && forallb (fun s => bytes_line_ok s && negb (all_blank (utf8_decode s))) more
+     end.
+
+Definition record_ok (r : record) : bool :=
+  valid_cdate (dt (rec_date r))
+  && fits_int64 (should_minutes r)
+  && forallb (fun s => bytes_line_ok s && summary_line_ok (utf8_decode s)) (rec_summary r)
+  && forallb entry_ok (rec_entries r)
+  && (length (filter is_open (rec_entries r)) <=? 1)%nat.
+
+Definition wf_records (rs : list record) : Prop := forallb record_ok rs = true.
+
+(* no summary line ends in a carriage return (printing such a line and reading it back loses the CR: finding K2) *)
+Definition no_cr (s : bytes) : bool := negb (ends_in_cr s).
+Definition no_trailing_cr (rs : list record) : bool :=
+  forallb (fun r => forallb no_cr (rec_summary r) && forallb (fun e => forallb no_cr (e_summary e)) (rec_entries r)) rs.
+
+(* ---------- raw documents and fault injection (the rejection half of C01) ---------- *)
+
+(* a document whose record places hold arbitrary non-blank lines *)
+Record r_doc := {
+  rd_lead : list text;
+  rd_groups : list (list text * list text);      (* (lines of a would-be record, blank lines after it) *)
+  rd_crlf : nat -> bool;
+  rd_final_newline : bool
+}.
+
+Definition raw_texts (rd : r_doc) : list text := rd_lead rd ++ flat_map (fun g => fst g ++ snd g) (rd_groups rd).
+Definition raw_doc_lines (rd : r_doc) : list line := attach (rd_crlf rd) (rd_final_newline rd) 0 (raw_texts rd).
+Definition render_raw (rd : r_doc) : bytes := text_of_lines (raw_doc_lines rd).
+
+Definition raw_of (d : s_doc) : r_doc :=
+  {| rd_lead := do_lead d; rd_groups := map (fun rg => (record_texts (fst rg), snd rg)) (do_records d);
+     rd_crlf := do_crlf d; rd_final_newline := do_final_newline d |}.
+
+Fixpoint raw_gaps_ok (gs : list (list text * list text)) : bool :=
+  match gs with
+  | [] => true
+  | [g] => forallb blank_text (snd g)
+  | g :: rest => forallb blank_text (snd g) && negb (Nat.eqb (length (snd g)) 0) && raw_gaps_ok rest
+  end.
+
+(* the layout is that of a document: blank lines where blank lines belong, non-blank lines in the record places,
+   every line a line (no linefeed inside, unambiguous ending) *)
+Definition raw_ok (rd : r_doc) : bool :=
+  forallb blank_text (rd_lead rd)
+  && forallb text_ok (raw_texts rd)
+  && forallb (fun g => negb (Nat.eqb (length (fst g)) 0) && forallb (fun t => negb (blank_text t)) (fst g)) (rd_groups rd)
+  && raw_gaps_ok (rd_groups rd)
+  && forallb line_unambiguous (raw_doc_lines rd).
+
+Fixpoint replace_nth {A} (n : nat) (x : A) (l : list A) : list A :=
+  match l, n with
+  | [], _ => []
+  | _ :: r, O => x :: r
+  | y :: r, S k => y :: replace_nth k x r
+  end.
+
+(* replace line j (0 = headline) of record k by the text t *)
+Definition inject_raw (k j : nat) (t : text) (d : s_doc) : r_doc :=
+  let rd := raw_of d in
+  {| rd_lead := rd_lead rd;
+     rd_groups := match nth_error (rd_groups rd) k with
+                  | Some g => replace_nth k (replace_nth j t (fst g), snd g) (rd_groups rd)
+                  | None => rd_groups rd
+                  end;
+     rd_crlf := rd_crlf rd; rd_final_newline := rd_final_newline rd |}.
+
+Definition inject (k j : nat) (t : text) (d : s_doc) : bytes := render_raw (inject_raw k j t d).
